@@ -41,16 +41,19 @@ structure Config where
   randomValues : Bool := false
   deriving Inhabited
 
+/-- productivity × busy time of each required worker of `t` (solver.py:250-257) -/
+def workTerms (st : State) (t : Task) : List Term :=
+  (st.reqsOf t.name).filterMap (fun r =>
+    match st.findWorker r.worker with
+    | none => none
+    | some w =>
+      let m := match (st.busyOf w.name).find? (·.1 == t.name) with | some e => e.2 | none => r.maybe
+      some (Term.mul (numT w.prod) (.sub (bE w.name t.name m) (bS w.name t.name m))))
+
 /-- work amount of one task (solver.py:246-261) -/
 def workAmount (st : State) (t : Task) : List Fml :=
   if t.work > 0 then
-    let contribs := (st.reqsOf t.name).filterMap (fun r =>
-      match st.findWorker r.worker with
-      | none => none
-      | some w =>
-        let m := match (st.busyOf w.name).find? (·.1 == t.name) with | some e => e.2 | none => r.maybe
-        some (Term.mul (numT w.prod) (.sub (bE w.name t.name m) (bS w.name t.name m))))
-    if contribs.isEmpty then [] else [.ge (.sum contribs) (numT t.work)]
+    if (workTerms st t).isEmpty then [] else [.ge (.sum (workTerms st t)) (numT t.work)]
   else []
 
 /-! ### buffers (solver.py:263-385) -/
